@@ -226,6 +226,9 @@ type CanonOpts struct {
 	NoDesc          bool
 	NoDirUses       bool
 	FillDirDefaults bool // fill directive-argument defaults into every use (C16's allowed normalisation)
+	// AsWritten adds, for every directive-use argument whose value is not the argument's default, the value in the form
+	// ggql holds it (kind of scalar, fields an object carries): what a use says is what was written, not its coercion
+	AsWritten bool
 	NoRoots         bool
 }
 
@@ -272,6 +275,15 @@ func canonDirUses(s *model.Schema, uses []model.DirUse, o CanonOpts) string {
 					continue
 				}
 				vals[a.Name] = canonValue(s, t, a.Value)
+				if o.AsWritten {
+					isDefault := false
+					if ad := dirArgOf(dd, a.Name); ad != nil && ad.HasDefault && canonValue(s, t, ad.Default) == vals[a.Name] {
+						isDefault = true // written or filled in: indistinguishable, and allowed to differ
+					}
+					if !isDefault {
+						vals[a.Name] += " written as " + writtenForm(a.Value)
+					}
+				}
 			} else {
 				vals[a.Name] = model.ValueText(a.Value)
 			}
@@ -445,4 +457,43 @@ func DefaultAlternatives(s *model.Schema, t *model.TypeRef, text string) []inter
 		}
 	}
 	return out
+}
+
+// writtenForm renders a value with the kind of every scalar and the fields every object carries; integer and float widths
+// are not told apart (ggql's parser and its coercions use several), a time is told from its string.
+func writtenForm(v interface{}) string {
+	switch t := v.(type) {
+	case nil:
+		return "null"
+	case bool:
+		return fmt.Sprintf("bool(%v)", t)
+	case int, int8, int16, int32, int64, uint, uint8, uint16, uint32, uint64:
+		return fmt.Sprintf("int(%v)", t)
+	case float32:
+		return fmt.Sprintf("float(%v)", float64(t))
+	case float64:
+		return fmt.Sprintf("float(%v)", t)
+	case string:
+		return fmt.Sprintf("string(%q)", t)
+	case model.Sym:
+		return "symbol(" + string(t) + ")"
+	case model.RawLit:
+		return writtenForm(t.Value)
+	case []interface{}:
+		parts := make([]string, len(t))
+		for i, e := range t {
+			parts[i] = writtenForm(e)
+		}
+		return "[" + strings.Join(parts, ",") + "]"
+	case model.VList:
+		return writtenForm([]interface{}(t))
+	case *model.ObjLit:
+		var parts []string
+		for _, k := range t.Keys {
+			parts = append(parts, k+":"+writtenForm(t.Vals[k]))
+		}
+		sort.Strings(parts)
+		return "{" + strings.Join(parts, ",") + "}"
+	}
+	return fmt.Sprintf("%T(%v)", v, v)
 }
